@@ -17,7 +17,7 @@ from ..inline import flatten
 from ..loader import AnalysisError, unparse, call_name
 from ..dataflow import AliasAnalysis, ALIAS, mutations_in, own_exprs, linform, target_names
 
-TECHNIQUE = ("static analysis: branch-outcome facts with definition chasing for coefficient stores, symbolic path execution of the renderer (joined text, one stripped '+', zero literal), finite sign-class abstract evaluation of the renderer and the flattened constructor (AST interpretation over class representatives), flow-sensitive alias analysis of the parameter list, verbatim-text derivation of the stored term")
+TECHNIQUE = ("static analysis: branch-outcome facts with definition chasing for coefficient stores, symbolic path execution of the renderer (joined text, one stripped '+', zero literal), finite sign-class abstract evaluation of the renderer and the flattened constructor (AST interpretation over class representatives), flow-sensitive alias analysis of the parameter list, verbatim-text derivation of the stored term; branch-outcome facts for the three-token acceptance and for the sign cut")
 EXPLANATION = (
     'The coefficient of an opaque (blob) term is never rendered, so any store to it is lossy: every store to .Constant must '
     'be control-dependent on the term being non-opaque. The renderer is evaluated abstractly per sign class and its text is '
